@@ -1,12 +1,11 @@
 /-
 C04 — small-step model of `UnboundedSegmentedMailbox` (actor/unbounded_segmented_mailbox.go):
 a linked list of fixed-size segments (`writeIdx` fetch-add reserves a slot, the slot store publishes
-it), segments recycled through `segmentPool` (a `sync.Pool`).
-
-`sync.Pool` is modelled as the harness pins it (one P, no GC during a case): a private slot used
-first, then a LIFO list; an empty pool allocates a fresh zeroed segment.  Segments are numbered in
-allocation order, segment 0 is the one the constructor allocates.  `segSize` is the Go constant
-`segmentSize` (passed in by the case, checked by the harness against the real constant).
+it).  Segments are allocated fresh (`newSegment` = `new(segment)`, no atomic site) and never
+recycled; a segment is left by the consumer only after all `segSize` slots were consumed.
+Segments are numbered in allocation order, segment 0 is the one the constructor allocates.
+`segSize` is the Go constant `segmentSize` (passed in by the case, checked by the harness against
+the real constant).
 -/
 import GoaktVerif.Model.C04.Core
 
@@ -28,50 +27,31 @@ structure Sh where
   head : Nat
   tail : Nat
   length : Int
-  poolPriv : Option Nat
-  poolShared : List Nat
 
 def Sh.upd (s : Sh) (i : Nat) (f : Seg → Seg) : Sh :=
   { s with segs := fun j => if j = i then f (s.segs i) else s.segs j }
 
-/-- `segmentPool.Get()` -/
-def Sh.poolGet (s : Sh) : Sh × Nat :=
-  match s.poolPriv with
-  | some x => ({ s with poolPriv := none }, x)
-  | none =>
-    match s.poolShared with
-    | x :: rest => ({ s with poolShared := rest }, x)
-    | [] => ({ s with nseg := s.nseg + 1 }, s.nseg)
-
-/-- `segmentPool.Put(seg)` -/
-def Sh.poolPut (s : Sh) (x : Nat) : Sh :=
-  match s.poolPriv with
-  | none => { s with poolPriv := some x }
-  | some _ => { s with poolShared := x :: s.poolShared }
+/-- `newSegment()`: a fresh zeroed segment -/
+def Sh.alloc (s : Sh) : Sh × Nat := ({ s with nseg := s.nseg + 1 }, s.nseg)
 
 inductive PC where
   | e1 (v : Nat)                 -- Enqueue: `Load:tail`
   | e2 (v t : Nat)               --   `Add:writeIdx`
   | e3 (v t idx : Nat)           --   idx < segSize: `Store:data`
   | e4 (v : Nat)                 --   `Add:length` (+1), return
-  | e5 (v t : Nat)               --   segment full: `Load:next`  [next == nil: segmentPool.Get()]
-  | n1 (v t s : Nat)             --   newSegment: `Store:writeIdx` (0)
-  | n2 (v t s : Nat)             --     `Store:deqIdx` (0)
-  | n3 (v t s : Nat)             --     `Store:next` (nil)
-  | n4 (v t s i : Nat)           --     `Store:data` (nil), i = 0 … segSize-1
+  | e5 (v t : Nat)               --   segment full: `Load:next`  [next == nil: newSegment()]
   | e6 (v t s : Nat)             --   `CAS:next` (tail.next: nil → newSeg)
   | e7 (v t s : Nat)             --   `CAS:tail` (tail → newSeg)
   | e9 (v t nx : Nat)            --   next != nil: `CAS:tail` (tail → next)
   | d1                           -- Dequeue: `Load:head`
   | d2 (seg : Nat)               --   `Load:writeIdx`
-  | d3 (seg enq : Nat)           --   `Load:deqIdx`
+  | d3 (seg enq : Nat)           --   `Load:deqIdx`  [deq >= enq and deq < segSize: return nil]
   | d4 (seg deq : Nat)           --   `Load:data`
   | d5 (seg deq v : Nat)         --   `Store:data` (nil)
   | d6 (seg deq v : Nat)         --   `Store:deqIdx` (deq+1)
   | d7 (v : Nat)                 --   `Add:length` (-1), return
   | d8 (seg : Nat)               --   segment drained: `Load:next`
-  | d9 (seg nx : Nat)            --   `Store:head` (next)
-  | d10 (seg nx : Nat)           --   `Store:next` (nil) [segmentPool.Put(seg)]
+  | d9 (seg nx : Nat)            --   `Store:head` (next), continue in the next segment
   | m1                           -- IsEmpty: `Load:head`
   | m2 (seg : Nat)               --   `Load:writeIdx`
   | m3 (seg enq : Nat)           --   `Load:deqIdx`
@@ -87,12 +67,11 @@ def start : Op → PC
 
 def label : PC → String
   | .e1 _ => "Load:tail" | .e2 _ _ => "Add:writeIdx" | .e3 _ _ _ => "Store:data" | .e4 _ => "Add:length"
-  | .e5 _ _ => "Load:next" | .n1 _ _ _ => "Store:writeIdx" | .n2 _ _ _ => "Store:deqIdx"
-  | .n3 _ _ _ => "Store:next" | .n4 _ _ _ _ => "Store:data" | .e6 _ _ _ => "CAS:next"
+  | .e5 _ _ => "Load:next" | .e6 _ _ _ => "CAS:next"
   | .e7 _ _ _ => "CAS:tail" | .e9 _ _ _ => "CAS:tail"
   | .d1 => "Load:head" | .d2 _ => "Load:writeIdx" | .d3 _ _ => "Load:deqIdx" | .d4 _ _ => "Load:data"
   | .d5 _ _ _ => "Store:data" | .d6 _ _ _ => "Store:deqIdx" | .d7 _ => "Add:length"
-  | .d8 _ => "Load:next" | .d9 _ _ => "Store:head" | .d10 _ _ => "Store:next"
+  | .d8 _ => "Load:next" | .d9 _ _ => "Store:head"
   | .m1 => "Load:head" | .m2 _ => "Load:writeIdx" | .m3 _ _ => "Load:deqIdx" | .m4 _ => "Load:next"
   | .l1 => "Load:length"
 
@@ -110,13 +89,7 @@ def exec (s : Sh) : PC → Sh × Next PC
   | .e5 v t =>
     match (s.segs t).next with
     | some nx => (s, .goto (.e9 v t nx))
-    | none => let r := s.poolGet; (r.1, .goto (.n1 v t r.2))
-  | .n1 v t g => (s.upd g fun x => { x with writeIdx := 0 }, .goto (.n2 v t g))
-  | .n2 v t g => (s.upd g fun x => { x with deqIdx := 0 }, .goto (.n3 v t g))
-  | .n3 v t g =>
-    (s.upd g fun x => { x with next := none }, if s.segSize = 0 then .goto (.e6 v t g) else .goto (.n4 v t g 0))
-  | .n4 v t g i =>
-    (s.upd g fun x => setData x i none, if i + 1 < s.segSize then .goto (.n4 v t g (i + 1)) else .goto (.e6 v t g))
+    | none => let r := s.alloc; (r.1, .goto (.e6 v t r.2))
   | .e6 v t g =>
     if (s.segs t).next = none then (s.upd t fun x => { x with next := some g }, .goto (.e7 v t g))
     else (s, .goto (.e1 v))
@@ -126,7 +99,9 @@ def exec (s : Sh) : PC → Sh × Next PC
   | .d2 seg => (s, .goto (.d3 seg (min (s.segs seg).writeIdx s.segSize)))
   | .d3 seg enq =>
     let deq := (s.segs seg).deqIdx
-    if deq < enq then (s, .goto (.d4 seg deq)) else (s, .goto (.d8 seg))
+    if deq < enq then (s, .goto (.d4 seg deq))
+    else if deq < s.segSize then (s, .ret .none)
+    else (s, .goto (.d8 seg))
   | .d4 seg deq =>
     match (s.segs seg).data deq with
     | none => (s, .ret .none)
@@ -138,8 +113,7 @@ def exec (s : Sh) : PC → Sh × Next PC
     match (s.segs seg).next with
     | none => (s, .ret .none)
     | some nx => (s, .goto (.d9 seg nx))
-  | .d9 seg nx => ({ s with head := nx }, .goto (.d10 seg nx))
-  | .d10 seg nx => ((s.upd seg fun g => { g with next := none }).poolPut seg, .goto (.d2 nx))
+  | .d9 _ nx => ({ s with head := nx }, .goto (.d2 nx))
   | .m1 => (s, .goto (.m2 s.head))
   | .m2 seg => (s, .goto (.m3 seg (min (s.segs seg).writeIdx s.segSize)))
   | .m3 seg enq => if (s.segs seg).deqIdx < enq then (s, .ret (.bool false)) else (s, .goto (.m4 seg))
@@ -147,7 +121,7 @@ def exec (s : Sh) : PC → Sh × Next PC
   | .l1 => (s, .ret (.num s.length))
 
 def init (segSize : Nat) : Sh :=
-  { segSize, segs := fun _ => Seg.zero, nseg := 1, head := 0, tail := 0, length := 0, poolPriv := none, poolShared := [] }
+  { segSize, segs := fun _ => Seg.zero, nseg := 1, head := 0, tail := 0, length := 0 }
 
 def algo : Algo := { Sh, PC, start, label, exec }
 
